@@ -28,6 +28,9 @@ func checkC06(c *Ctx) {
 	ruleMinLen(c, "C06")
 	ruleSpanScan(c)
 	ruleWSSpecRecognisers(c)
+	ruleStartNonBlank(c)
+	ruleHTMLBlockTable(c)
+	rulePrefilter(c)
 	// 3. emphasis: flanking truth table, match predicate (rules 9/10), search-bound cache soundness
 	checkC11(c)
 	// 4. which block may contain which; list/ item agreement; tightness
